@@ -10,9 +10,15 @@ mod real;
 mod refmodel;
 mod util;
 
-use std::sync::Mutex;
+use std::cell::RefCell;
 
-pub static LAST_PANIC: Mutex<Option<String>> = Mutex::new(None);
+// The panic hook runs on the panicking thread, and catch_unwind returns on that same thread: the record is per thread, so the
+// message a worker thread reads is the one of its own panic.
+thread_local! { pub static LAST_PANIC: RefCell<Option<String>> = const { RefCell::new(None) }; }
+
+pub fn take_last_panic() -> Option<String> {
+    LAST_PANIC.with(|p| p.borrow_mut().take())
+}
 
 fn main() {
     let args: Vec<String> = std::env::args().collect();
@@ -27,7 +33,7 @@ fn main() {
         let file = info.location().map(|l| l.file().to_owned()).unwrap_or_default();
         let file = file.rsplit("slice-codec/").next().unwrap_or(&file).to_owned();
         let stem: String = message.chars().map(|c| if c.is_ascii_digit() { '_' } else { c }).take(60).collect();
-        *LAST_PANIC.lock().unwrap() = Some(format!("{file}:{stem}"));
+        LAST_PANIC.with(|p| *p.borrow_mut() = Some(format!("{file}:{stem}")));
     }));
 
     let get = |name: &str, default: &str| -> String {
